@@ -63,6 +63,16 @@ def cases(seed, tier):
                 out.append({"group": "history", "kind": "late_backward", "functional": fname, "rep": "rebind_" + holder, "holder": holder,
                             "d": rng.choice([2, 3, 7]), "s": 0.4, "seed": sub_seed(seed, "c09hs", k)})
                 k += 1
+    # a user-held sibling (made ONCE) used again after the object was given other tensors / another sharing of tensors between its slots
+    for fname in fn:
+        for j, mode in enumerate(("rebind", "split", "merge")):
+            for r in range(reps):
+                if tier == "quick" and (j + len(fname)) % 2 != 0:
+                    continue
+                rng = random.Random(sub_seed(seed, "c09hb", fname, mode, r))
+                out.append({"group": "history", "kind": "sibling_rebind", "functional": fname, "rep": "sibling_" + mode, "mode": mode,
+                            "late": rng.random() < 0.5, "d": rng.choice([2, 3, 7]), "s": 0.4, "seed": sub_seed(seed, "c09hs", k)})
+                k += 1
     return out
 
 
@@ -112,7 +122,94 @@ def run_case(desc):
         return run_refreeze(desc)
     if desc["kind"] == "late_backward":
         return run_late(desc)
+    if desc["kind"] == "sibling_rebind":
+        return run_sibling_rebind(desc)
     return run_abort(desc)
+
+
+def run_sibling_rebind(desc):
+    """one EditableModule with slots a, a2, b, W (the function uses 0.5 (a + a2)); a sibling of its method is made once; the object is then given a
+    second generation of tensors (mode rebind), or the sharing between a and a2 changes (split: one tensor -> two; merge: two -> one); the same
+    sibling is used again.  With `late` the first result is differentiated only after the change."""
+    import xitorch
+    obs = Obs(desc)
+    fname, mode, d, s = desc["functional"], desc["mode"], desc["d"], desc["s"]
+    dtype = torch.float64
+    tg = torch.Generator().manual_seed(desc["seed"])
+    F = funcs.FUNCTIONALS[fname]
+    mech = "%s:sibling_%s%s" % (fname, mode, ":late" if desc["late"] else "")
+    tol = 1e-6 if F.iterative else 1e-8
+    core, nlead = F.core, F.nlead
+
+    class E(xitorch.EditableModule):
+        def __init__(self, a, a2, b, W):
+            self.a, self.a2, self.b, self.W = a, a2, b, W
+
+        def fwd(self, *lead):
+            return core(*lead, 0.5 * (self.a + self.a2), self.b, self.W, s)
+
+        def getparamnames(self, methodname, prefix=""):
+            return [prefix + "a", prefix + "a2", prefix + "b", prefix + "W"]
+
+    def pure(*args):
+        lead, (pa, pa2, pb, pW) = args[:nlead], args[nlead:]
+        return core(*lead, 0.5 * (pa + pa2), pb, pW, s)
+
+    def generations(l):
+        a, b, W = funcs.effective(l, True)
+        other = 1.1 * a + 0.3
+        if mode == "rebind":
+            return [(a, a, b, W), (other, other, b + 0.05, W * 0.9)]
+        if mode == "split":
+            return [(a, a, b, W), (a, other, b, W)]
+        return [(a, other, b, W), (a, a, b, W)]
+    lv = {k: v.detach().clone().requires_grad_() for k, v in funcs.make_leaves(d, tg, dtype).items()}
+    lv_ref = {k: v.detach().clone().requires_grad_() for k, v in lv.items()}
+    leaves, leaves_ref = [lv[k] for k in funcs.LEAF_NAMES], [lv_ref[k] for k in funcs.LEAF_NAMES]
+    try:
+        with WarnLog():
+            outs_ref = []
+            for g_ in generations(lv_ref):
+                outs_ref += _outs(F.run(funcs.Built(pure, g_, [], ()), d, dtype, None))
+    except Exception as e:
+        raise HarnessBug("reference run failed for %s: %s: %s" % (fname, type(e).__name__, e))
+    cots = [torch.randn(o.shape, generator=tg, dtype=dtype) for o in outs_ref]
+    cots2 = [torch.randn(l.shape, generator=tg, dtype=dtype) for l in leaves]
+    nout1 = len(outs_ref) // 2
+    gens = generations(lv)
+    obj = E(*gens[0])
+
+    @xitorch.make_sibling(obj.fwd)
+    def sib(*lead):
+        return obj.fwd(*lead) * 1.0
+    built = funcs.Built(sib, (), [("e", obj)], ())
+    try:
+        with WarnLog():
+            outs1 = _outs(F.run(built, d, dtype, None))
+            obj.a, obj.a2, obj.b, obj.W = gens[1]
+            outs2 = _outs(F.run(built, d, dtype, None))
+            held_ok = obj.a is gens[1][0] and obj.a2 is gens[1][1] and obj.b is gens[1][2] and obj.W is gens[1][3]
+            if desc["late"]:
+                outs = outs1 + outs2
+                g = _grads(outs, leaves, cots, cots2)
+                held_ok = held_ok and obj.a is gens[1][0] and obj.a2 is gens[1][1]
+            else:
+                g = _grads(outs2, leaves, cots[nout1:], cots2)
+    except Exception as e:
+        obs.exc_violation("history:sibling_rebind:" + mech, e)
+        obs.nontrivial = True
+        return obs.result()
+    obs.check(held_ok and obj.a is gens[1][0] and obj.a2 is gens[1][1], "history:object_changed:" + mech,
+              "after the calls the object does not hold the tensors assigned to it last (a kept: %s, a2 kept: %s)" % (obj.a is gens[1][0], obj.a2 is gens[1][1]))
+    if desc["late"]:
+        gref = _grads(outs_ref, leaves_ref, cots, cots2)
+        _compare(obs, mech, "sibling_reused", tol, outs_ref, outs1 + outs2, leaves_ref, leaves, gref, g)
+    else:
+        gref = _grads(outs_ref[nout1:], leaves_ref, cots[nout1:], cots2)
+        _compare(obs, mech, "sibling_reused", tol, outs_ref[nout1:], outs2, leaves_ref, leaves, gref, g)
+    obs.count("sibling_rebind_compared")
+    obs.nontrivial = True
+    return obs.result()
 
 
 def run_late(desc):
